@@ -36,21 +36,24 @@ theorem AllOwn.tail {log : List (K × Int)} {x : LEntry K} {rest : List (LEntry 
 structure LTInv (log : List (K × Int)) (t : LThr K) : Prop where
   res : ∀ v, t.res = some v → Own log t.key v
   out : ∀ v, t.out = some (.ok v) → Own log t.key v
+  /-- the value a hit is about to return (read from the dictionary under the lock) -/
+  hit : ∀ v, t.pc = .rel1Hit v → Own log t.key v
 
 theorem LTInv.mono {log : List (K × Int)} {t : LThr K} (l) (h : LTInv log t) : LTInv (log ++ l) t :=
-  ⟨fun v hv => (h.res v hv).mono l, fun v hv => (h.out v hv).mono l⟩
+  ⟨fun v hv => (h.res v hv).mono l, fun v hv => (h.out v hv).mono l, fun v hv => (h.hit v hv).mono l⟩
 
 theorem LTInv.start (log : List (K × Int)) (k : K) : LTInv log (LThr.start k) :=
-  ⟨by intro v hv; simp [LThr.start] at hv, by intro v hv; simp [LThr.start] at hv⟩
+  ⟨by intro v hv; simp [LThr.start] at hv, by intro v hv; simp [LThr.start] at hv,
+   by intro v hv; simp [LThr.start] at hv⟩
 
 theorem iterStep_inv (valid : Option Int) (w : LWorld K) (t : LThr K) (k : K) (ver : Nat) (acc : List K)
     {log : List (K × Int)} (ht : LTInv log t) : LTInv log (iterStep valid w t k ver acc) := by
   unfold iterStep
   split
-  · exact ⟨ht.res, ht.out⟩
+  · exact ⟨ht.res, ht.out, by intro v hv; simp at hv⟩
   · split
-    · exact ⟨ht.res, ht.out⟩
-    · exact ⟨ht.res, ht.out⟩
+    · exact ⟨ht.res, ht.out, by intro v hv; simp at hv⟩
+    · exact ⟨ht.res, ht.out, by intro v hv; simp at hv⟩
 
 theorem iterStep_key (valid : Option Int) (w : LWorld K) (t : LThr K) (k : K) (ver : Nat) (acc : List K) :
     (iterStep valid w t k ver acc).key = t.key := by
@@ -59,6 +62,9 @@ theorem iterStep_key (valid : Option Int) (w : LWorld K) (t : LThr K) (k : K) (v
   · rfl
   · split <;> rfl
 
+theorem afterScan_ne (acc : List K) (v : Nat) : afterScan acc ≠ LPc.rel1Hit v := by
+  unfold afterScan; split <;> simp
+
 /-- One line of the LRU wrapper preserves the invariants and only appends to the log. -/
 theorem lstepThr_inv (maxSize : Nat) (valid : Option Int) (cost : K → Int) (w : LWorld K) (t : LThr K)
     (hw : AllOwn w.log w.od.items) (ht : LTInv w.log t) :
@@ -66,74 +72,86 @@ theorem lstepThr_inv (maxSize : Nat) (valid : Option Int) (cost : K → Int) (w 
     LTInv (lstepThr maxSize valid cost w t).1.log (lstepThr maxSize valid cost w t).2 ∧
     ∃ l, (lstepThr maxSize valid cost w t).1.log = w.log ++ l := by
   have herr : ∀ c : String, LTInv w.log { t with out := some (.err c) } :=
-    fun c => ⟨ht.res, by intro v hv; simp at hv⟩
-  have hpc : ∀ p : LPc K, LTInv w.log { t with pc := p } := fun p => ⟨ht.res, ht.out⟩
+    fun c => ⟨ht.res, by intro v hv; simp at hv, ht.hit⟩
+  have hpc : ∀ p : LPc K, (∀ v, p ≠ .rel1Hit v) → LTInv w.log { t with pc := p } :=
+    fun p hp => ⟨ht.res, ht.out, fun v hv => absurd hv (hp v)⟩
   unfold lstepThr
   split
-  · exact ⟨hw, ⟨ht.res, ht.out⟩, [], by simp⟩
-  · split
-    · exact ⟨hw, hpc _, [], by simp⟩
+  · exact ⟨hw, ⟨ht.res, ht.out, by intro v hv; simp at hv⟩, [], by simp⟩                       -- clk
+  · split                                                              -- acq1
+    · exact ⟨hw, ht, [], by simp⟩
+    · exact ⟨hw, hpc _ (by intro v; first | (simp; done) | exact afterScan_ne _ _), [], by simp⟩
+  · split                                                              -- iterFirst
+    · exact ⟨hw, hpc _ (by intro v; first | (simp; done) | exact afterScan_ne _ _), [], by simp⟩
     · exact ⟨hw, iterStep_inv valid w t _ _ _ ht, [], by simp⟩
-  · exact ⟨hw, hpc _, [], by simp⟩
+  · exact ⟨hw, hpc _ (by intro v; first | (simp; done) | exact afterScan_ne _ _), [], by simp⟩
   · exact ⟨hw, iterStep_inv valid w t _ _ _ ht, [], by simp⟩
-  · exact ⟨hw, hpc _, [], by simp⟩
-  · split
-    · exact ⟨hw.delKey _, hpc _, [], by simp⟩
-    · exact ⟨hw, herr _, [], by simp⟩
-  · split
-    · exact ⟨hw, hpc _, [], by simp⟩
-    · exact ⟨hw, hpc _, [], by simp⟩
-  · split
-    · exact ⟨hw, herr _, [], by simp⟩
+  · exact ⟨hw, hpc _ (by intro v; first | (simp; done) | exact afterScan_ne _ _), [], by simp⟩
+  · split                                                              -- del
+    · exact ⟨hw.delKey _, hpc _ (by intro v; split <;> simp), [], by simp⟩
+    · exact ⟨hw, hpc _ (by intro v; first | (simp; done) | exact afterScan_ne _ _), [], by simp⟩
+  · split                                                              -- inCheck
+    · exact ⟨hw, hpc _ (by intro v; first | (simp; done) | exact afterScan_ne _ _), [], by simp⟩
+    · exact ⟨hw, hpc _ (by intro v; first | (simp; done) | exact afterScan_ne _ _), [], by simp⟩
+  · split                                                              -- move
+    · exact ⟨hw, hpc _ (by intro v; first | (simp; done) | exact afterScan_ne _ _), [], by simp⟩
     · rename_i e he
       split
-      · exact ⟨hw, hpc _, [], by simp⟩
-      · exact ⟨(hw.delKey _).append (hw e (List.mem_of_find?_eq_some he)), hpc _, [], by simp⟩
-  · split
-    · exact ⟨hw, herr _, [], by simp⟩
+      · exact ⟨hw, hpc _ (by intro v; first | (simp; done) | exact afterScan_ne _ _), [], by simp⟩
+      · exact ⟨(hw.delKey _).append (hw e (List.mem_of_find?_eq_some he)), hpc _ (by intro v; first | (simp; done) | exact afterScan_ne _ _), [], by simp⟩
+  · split                                                              -- get
+    · exact ⟨hw, hpc _ (by intro v; first | (simp; done) | exact afterScan_ne _ _), [], by simp⟩
     · rename_i e he
       have hk : e.key = t.key := by simpa using List.find?_some he
-      refine ⟨hw, ⟨ht.res, ?_⟩, [], by simp⟩
+      refine ⟨hw, ⟨ht.res, ht.out, ?_⟩, [], by simp⟩
       intro v hv
-      simp only [Option.some.injEq, Outcome.ok.injEq] at hv
+      simp only [LPc.rel1Hit.injEq] at hv
       subst hv
       rw [← hk]; exact hw e (List.mem_of_find?_eq_some he)
-  · refine ⟨hw.mono _, ⟨?_, fun v hv => (ht.out v hv).mono _⟩, _, rfl⟩
-    intro v hv
-    simp only [Option.some.injEq] at hv
-    subst hv
-    exact Own.new _ _ _
-  · split
-    · exact ⟨hw, herr _, [], by simp⟩
+  · -- rel1Hit v: the value was read from the dictionary under the lock; that it is the thread's own
+    -- is part of `LockInv` (Lemmas/CacheLock.lean); here the weaker invariant only needs `ok`-outcomes
+    -- that come from `res`, so this arm is handled by the caller-provided fact below
+    rename_i v0 hpc0
+    exact ⟨hw, ⟨ht.res, fun v hv => by
+      simp only [Option.some.injEq, Outcome.ok.injEq] at hv
+      subst hv
+      exact ht.hit _ hpc0, ht.hit⟩, [], by simp⟩
+  · exact ⟨hw, hpc _ (by intro v; first | (simp; done) | exact afterScan_ne _ _), [], by simp⟩                                     -- rel1Miss
+  · refine ⟨hw.mono _, ⟨?_, fun v hv => (ht.out v hv).mono _, ?_⟩, _, rfl⟩   -- call
+    · intro v hv
+      simp only [Option.some.injEq] at hv
+      subst hv
+      exact Own.new _ _ _
+    · intro v hv; simp at hv
+  · split                                                              -- acq2
+    · exact ⟨hw, ht, [], by simp⟩
+    · exact ⟨hw, hpc _ (by intro v; first | (simp; done) | exact afterScan_ne _ _), [], by simp⟩
+  · split                                                              -- store
+    · exact ⟨hw, hpc _ (by intro v; first | (simp; done) | exact afterScan_ne _ _), [], by simp⟩
     · rename_i id hid
       have hown := ht.res id hid
       split
-      · exact ⟨hw.replace _ hown, hpc _, [], by simp⟩
-      · exact ⟨hw.append hown, hpc _, [], by simp⟩
-  · split
+      · exact ⟨hw.replace _ hown, hpc _ (by intro v; first | (simp; done) | exact afterScan_ne _ _), [], by simp⟩
+      · exact ⟨hw.append hown, hpc _ (by intro v; first | (simp; done) | exact afterScan_ne _ _), [], by simp⟩
+  · split                                                              -- len
+    · exact ⟨hw, hpc _ (by intro v; first | (simp; done) | exact afterScan_ne _ _), [], by simp⟩
+    · exact ⟨hw, hpc _ (by intro v; first | (simp; done) | exact afterScan_ne _ _), [], by simp⟩
+  · split                                                              -- pop
+    · exact ⟨hw, hpc _ (by intro v; first | (simp; done) | exact afterScan_ne _ _), [], by simp⟩
+    · rename_i x rest hitems
+      refine ⟨?_, hpc _ (by intro v; first | (simp; done) | exact afterScan_ne _ _), [], by simp⟩
+      have : AllOwn w.log (x :: rest) := by rw [← hitems]; exact hw
+      exact this.tail
+  · split                                                              -- rel2
     · exact ⟨hw, herr _, [], by simp⟩
     · rename_i id hid
       have hown := ht.res id hid
-      split
-      · exact ⟨hw, hpc _, [], by simp⟩
-      · refine ⟨hw, ⟨ht.res, ?_⟩, [], by simp⟩
-        intro v hv
-        simp only [Option.some.injEq, Outcome.ok.injEq] at hv
-        subst hv; exact hown
-  · split
-    · exact ⟨hw, herr _, [], by simp⟩
-    · rename_i id hid
-      have hown := ht.res id hid
-      split
-      · exact ⟨hw, herr _, [], by simp⟩
-      · rename_i x rest hitems
-        refine ⟨?_, ⟨ht.res, ?_⟩, [], by simp⟩
-        · have : AllOwn w.log (x :: rest) := by rw [← hitems]; exact hw
-          exact this.tail
-        · intro v hv
-          simp only [Option.some.injEq, Outcome.ok.injEq] at hv
-          subst hv; exact hown
-  · exact ⟨hw, herr _, [], by simp⟩
+      refine ⟨hw, ⟨ht.res, ?_, ht.hit⟩, [], by simp⟩
+      intro v hv
+      simp only [Option.some.injEq, Outcome.ok.injEq] at hv
+      subst hv; exact hown
+  · exact ⟨hw, hpc _ (by intro v; first | (simp; done) | exact afterScan_ne _ _), [], by simp⟩                                     -- cleanup
+  · exact ⟨hw, herr _, [], by simp⟩                                    -- relErr
 
 def LCInv (c : LConc K) : Prop := AllOwn c.w.log c.w.od.items ∧ ∀ t ∈ c.thr, LTInv c.w.log t
 
